@@ -32,7 +32,7 @@ func (c05) Decode(raw json.RawMessage) (any, error) {
 
 func (c05) Gen(rt *rapid.T, thorough bool) any {
 	s := genAsyncBase(rt, thorough)
-	s.Kind = rapid.SampledFrom([]string{"AsyncLogger", "AsyncLogger", "Logger", "File", "Console", "RollingFile", "RollingFile"}).Draw(rt, "kind5")
+	s.Kind = rapid.SampledFrom([]string{"AsyncLogger", "AsyncLogger", "Logger", "File", "Console", "RollingFile", "RollingFile", "AsyncShared"}).Draw(rt, "kind5")
 	s.Level = rapid.SampledFrom([]string{"", "", "DEBUG"}).Draw(rt, "level5")
 	s.StopTwice = rapid.IntRange(0, 3).Draw(rt, "stop_twice") == 0
 	switch s.Kind {
@@ -43,11 +43,22 @@ func (c05) Gen(rt *rapid.T, thorough bool) any {
 		s.Slow = rapid.SampledFrom([]int{0, 0, 3}).Draw(rt, "slow5")
 		s.Prefill = rapid.SampledFrom([]int{0, 1, 2, s.BufferSize / 2, s.BufferSize - 1, s.BufferSize, s.BufferSize + 1, s.BufferSize + 5}).Draw(rt, "occupancy")
 		genProducers(rt, s, 3, 12, 3)
+		if rapid.IntRange(0, 5).Draw(rt, "slow_sink") == 0 {
+			// a sink that takes (simulated) time per item: flushing a backlog takes as long as
+			// it takes, and Stop has to wait for all of it
+			s.SleepMs = rapid.SampledFrom([]int{120, 400}).Draw(rt, "sleep_ms")
+			s.Gate, s.Slow, s.Knobs.AutoAdvS = 0, 0, 600
+			s.Prefill = rapid.SampledFrom([]int{s.BufferSize / 2, s.BufferSize - 1, s.BufferSize}).Draw(rt, "occupancy_slow")
+		}
 	default:
 		s.Refs = nil
 		s.Gate, s.Slow, s.Prefill = 0, 0, 0
-		if s.Kind == "Logger" {
+		if s.Kind == "Logger" || s.Kind == "AsyncShared" {
 			s.Via = "refresh"
+		}
+		if s.Kind == "AsyncShared" && rapid.IntRange(0, 3).Draw(rt, "starve_shared") != 0 {
+			// two async loggers over one shared file appender, their workers behind: both have a backlog at Destroy
+			s.Knobs.Starve = []string{"go@plugin_logger"}
 		}
 		if s.Kind == "RollingFile" {
 			s.RotMs = rapid.SampledFrom([]int{3600000, 2000, 2000}).Draw(rt, "rot_ms")
@@ -168,6 +179,13 @@ func (c c05) Run(x *Exec, scn any) {
 			}
 		}
 		spec.Logs = []LogSpec{lg}
+		if s.Kind == "AsyncShared" {
+			spec.Apps = []AppSpec{{Name: "shared", Type: "File", FileDir: "/logs", FileName: "shared.log"}}
+			a := LogSpec{Name: "appl", Type: "AsyncLogger", Tags: []string{"_app_*"}, Level: s.Level, BufferSize: s.BufferSize, Policy: "Block", Refs: []RefSpec{{Ref: "shared"}}}
+			b := a
+			b.Name, b.Tags = "bizl", []string{"_biz_*"}
+			spec.Logs = []LogSpec{a, b}
+		}
 		cfg := spec.Render()
 		var pv any
 		var st string
@@ -176,10 +194,13 @@ func (c c05) Run(x *Exec, scn any) {
 			o.violate("refresh-panic", "C05/refresh-panic/"+s.Kind+"/"+panicSite(st), "Refresh panicked for a %s logger: %v", s.Kind, pv)
 			return
 		}
-		tag := log.TagAppDef
 		submit = func(task, seq int, op AOp) *Sub {
 			sb := &Sub{ID: fmt.Sprintf("t%ds%d", task, seq), Task: task, Seq: seq, Level: op.Lvl, Code: levelCodes[op.Lvl]}
 			sb.Invoke, _ = stepTask()
+			tag := log.TagAppDef
+			if s.Kind == "AsyncShared" && (task+seq)%2 == 1 {
+				tag = log.TagBizDef
+			}
 			pv, st := call(func() {
 				log.Record(ctxFor(task, seq), levelByName(op.Lvl), tag, 1, log.String("id", sb.ID), log.String("pad", filler(task, seq, op.Size)))
 			})
@@ -205,7 +226,9 @@ func (c c05) Run(x *Exec, scn any) {
 		})
 	}
 	clockEnvMs(x, s.Clock)
-	res := x.Sim.Run(nil)
+	// the phase ends the moment the last log call returns: what the library's own goroutines
+	// have not done by then (a worker's backlog, a retention sweep) is still theirs to do at Stop
+	res := x.Sim.Run(x.harnessTasksDone)
 	if s.Kind == "RollingFile" && s.RotMs == 2000 {
 		// at least two more rotations of every file appender before Stop: a descriptor that is
 		// only released "one rotation later" must really be released then
